@@ -116,6 +116,9 @@ def alphabet(R, level):
         A.append(('tA.add_index(a_id)', [Op(52, tA, R['a_id'])]))
         A.append(('tA.delete_index(i_own2)', [Op(53, tA, V('obj', R['i_own2']))]))
         A.append(('tA.delete_index(0)', [Op(53, tA, V('int', 0))]))
+        A.append(('tA.delete_index(1)', [Op(53, tA, V('int', 1))]))
+        A.append(('tA.delete_index(-1)', [Op(53, tA, V('int', -1))]))
+        A.append(('tA.delete_column(2)', [Op(51, tA, V('int', 2))]))
         A.append(('tA.delete_index(-3)', [Op(53, tA, V('int', -3))]))
         A.append(('tE.add_index(i_own)', [Op(52, R['tE'], R['i_own'])]))
         A.append(('e1.add_item(x)', [Op(54, R['e1'], V('str', 'x'))]))
@@ -143,6 +146,17 @@ def histories(r, tier):
             for _, o in seq:
                 ops += o
             yield [l for l, _ in seq], ops + look + [Op(82)], len(pre)
+    # the table-level sub-language, exhaustively (twins, positions, foreign columns)
+    tl = [a for a in ext if a[0].startswith(('tA.add_', 'tA.delete_', 'tE.add_'))]
+    tdepth = 3 if tier == 'quick' else 4
+    for k in range(1, tdepth + 1):
+        for seq in itertools.product(tl, repeat=k):
+            if k == tdepth and not seq[-1][0].startswith('tA.delete'):
+                continue
+            ops = list(pre)
+            for _, o in seq:
+                ops += o
+            yield [l for l, _ in seq], ops + look[7:10] + [Op(82)], len(pre)
     nrand = 1500 if tier == 'quick' else 30000
     for _ in range(nrand):
         n = r.choice([3, 4, 5, 6, 8, 12, 20])
